@@ -368,11 +368,13 @@ func TestVerifC26(t *testing.T) {
 			if o.ok {
 				class = "dec-" + kind + "-accepted"
 			}
-			if degenerate && o.ok {
-				class = "degenerate-format"
+			if o.ok && o.reenc != v {
+				// recognised, but not what Encode writes for the decoded path and start
+				class = "dec-recognised-not-reencodable"
 			}
 			out.Case(cqApp("Dec", cqZ(int64(loff)), cqBytes(f), cqBytes(v), o.coq(), cqBytes(o.reenc)),
-				map[string]any{"kind": "decode", "format": f, "candidate": v, "mutation": kind, "local_offset": loff, "decoded": o.desc()},
+				map[string]any{"kind": "decode", "format": f, "candidate": v, "mutation": kind, "local_offset": loff, "decoded": o.desc(),
+					"format_degenerate": degenerate},
 				class, o.ok)
 		}
 	}
